@@ -1306,3 +1306,13 @@ VP("C16-R2C-mut-ignore-not-consulted", "C16", "guard-clause override ignores the
    "        if value is None or key in ignored:\n            continue", "        if value is None:\n            continue")
 VP("C16-R2C-mut-prefix-lost", "C16", "flattened get_all_fields forgets the prefix of nested paths", "C16-R2C", SUP,
    "            ret.append((prefix + subkey, owner, subfield))", "            ret.append((subkey, owner, subfield))")
+VP("C18-R2C-mut-base-from-child", "C18", "refactored merge looks the base value up in the child", "C18-R2C", INC,
+   "            base_value = base.get(key)", "            base_value = child.get(key)")
+VP("C18-R2C-mut-base-wins", "C18", "refactored merge keeps the including document's scalar", "C18-R2C", INC,
+   "                merged[key] = child_value", "                merged[key] = base_value if key in base else child_value")
+VP("C18-R2C-mut-nested-not-stored", "C18", "refactored include processing drops the nested result", "C18-R2C", CORE,
+   "                tree[key] = self._process_includes(sub_schema, sub_tree, format_factory)", "                self._process_includes(sub_schema, sub_tree, format_factory)")
+VP("C18-R2C-mut-include-result-dropped", "C18", "refactored include processing drops the merged tree", "C18-R2C", CORE,
+   "                tree = include_field.include(self, format_factory(), filename, tree)", "                include_field.include(self, format_factory(), filename, tree)")
+VP("C18-R2C-mut-merge-in-place", "C18", "refactored merge writes into the base tree", "C18-R2C", INC,
+   "        merged = dict(base)", "        merged = base")
